@@ -725,3 +725,48 @@ Proof.
   exists (handle_by_index c (i + 1)). repeat split; auto.
   apply handle_by_index_nth; auto.
 Qed.
+
+(* ------------------------------------------------------------------ fixed handles are honoured *)
+Definition honoured (r h : N) : Prop := r = 0 \/ h = r.
+
+Lemma honoured_zeros p k : Forall2 honoured (repeat 0 k) (consecutive p k).
+Proof.
+  revert p; induction k as [|k IH]; intros p; [constructor|].
+  rewrite consecutive_S. cbn [repeat]. constructor; [left; reflexivity|apply IH].
+Qed.
+
+Lemma char_honoured sh c : Forall2 honoured (char_requests c) (char_hlist sh c).
+Proof.
+  unfold char_requests, char_hlist, select_handles. cbv zeta. fold (extra c).
+  destruct (c_handle c) as [|h|d v cc]; cbn [ch_decl ch_value ch_cccd].
+  - constructor; [left; reflexivity|]. constructor; [left; reflexivity|].
+    destruct (extra c) as [|k]; [constructor|]. cbn [repeat]. constructor; [left; reflexivity|apply honoured_zeros].
+  - constructor; [right; reflexivity|]. constructor; [left; reflexivity|].
+    destruct (extra c) as [|k]; [constructor|]. cbn [repeat]. constructor; [left; reflexivity|apply honoured_zeros].
+  - constructor; [right; reflexivity|]. constructor; [right; reflexivity|].
+    destruct (extra c) as [|k]; [constructor|]. constructor; [|apply honoured_zeros].
+    destruct (cc =? 0) eqn:E; [left; apply N.eqb_eq; exact E|right; reflexivity].
+Qed.
+
+Lemma chars_honoured cs sh : Forall2 honoured (flat_map char_requests cs) (chars_hlist cs sh).
+Proof.
+  revert sh; induction cs as [|c t IH]; intros sh; cbn [flat_map chars_hlist]; [constructor|].
+  apply Forall2_app; [apply char_honoured|apply IH].
+Qed.
+
+Lemma svcs_honoured ss sh : no_includes_b ss = true -> Forall2 honoured (flat_map svc_requests ss) (svcs_hlist ss sh).
+Proof.
+  revert sh; induction ss as [|s t IH]; intros sh Hn; cbn [flat_map svcs_hlist]; [constructor|].
+  cbn [no_includes_b forallb] in Hn. apply andb_true_iff in Hn. destruct Hn as [Hi Hn].
+  unfold svc_requests. destruct (s_includes s); [|discriminate]. cbn [length repeat app].
+  constructor.
+  - unfold svc_handle, honoured. destruct (s_handle s); [right; reflexivity|left; reflexivity].
+  - apply Forall2_app; [apply chars_honoured|apply IH; exact Hn].
+Qed.
+
+(* every handle requested by attribute_handle<> / attribute_handles<> is the handle assigned *)
+Theorem fixed_handles_honoured c :
+  wf c -> no_includes c -> Forall2 honoured (requests c) (assign c).
+Proof.
+  intros Hw Hn. rewrite assign_is_hlist by auto. apply svcs_honoured. exact Hn.
+Qed.
